@@ -12,7 +12,10 @@ Definition lookup_file (g : graph) (name : bytes) : option nat := lookup_file_fr
 
 (* Work::lookup: canonicalise, then look the name up *)
 Definition resolve_target (g : graph) (name : bytes) : outcome (option nat) :=
-  do c <- canon name; Ok (lookup_file g c).
+  match name with
+  | [] => Ok None                      (* after the fix for F3: an empty name is an unknown path *)
+  | _ => do c <- canon name; Ok (lookup_file g c)
+  end.
 
 Definition opt_nat_eqb (a b : option nat) : bool :=
   match a, b with
